@@ -21,7 +21,7 @@ def classify(op, m):
     return f'{t[0]}:{m.split(" ")[0]}'
 
 
-HOSTS = {b'example.com': [b'https://example.com/', b'https://example.com/a', b'https://www.example.com/w', b'https://example.com:8443/p', b'https://example.com:443/d'], b'other.example': [b'https://other.example/', b'https://other.example/x']}
+HOSTS = {b'example.com': [b'https://example.com/', b'https://example.com/a', b'https://www.example.com/w', b'https://example.com:8443/p', b'https://example.com:443/d', b'https://Example.com/Mixed.html', b'https://EXAMPLE.COM:443/U'], b'other.example': [b'https://other.example/', b'https://other.example/x']}
 
 
 def verify_stage(ctx, items):
